@@ -214,6 +214,13 @@ class Body:
                     self.names.setdefault(pl[0], d["name"])
                 else:
                     self.named_places.append((pl, d["name"]))
+        # shadowed variables: several locals with one source name -> name, name~2, name~3 (in local order)
+        byname = {}
+        for l in sorted(self.names):
+            byname.setdefault(self.names[l], []).append(l)
+        for nm, ls in byname.items():
+            for k, l in enumerate(ls[1:], start=2):
+                self.names[l] = "%s~%d" % (nm, k)
         self._defs = None
         self._preds = {}
         self._dom = {}
